@@ -5,6 +5,8 @@ an op that is not applicable in the current state is skipped, which keeps shrink
   ["start", ep]                       ep in "A" (client, ICE controlling) / "B" (server)
   ["deliver", dst, i]                 deliver the i-th datagram queued towards dst (removes it)
   ["drop", dst, i] / ["dup", dst, i]
+  ["stash", dst, i] / ["unstash", dst, j]   the network holds back a copy of a datagram / releases it much later
+  ["inject", dst, hex]                a datagram made up by the network (C05)
   ["fire", ep, "t1"|"t2"|"t3"]
   ["task", ep]                        run the oldest pending task
   ["create", ep, {label, protocol, ordered, maxRetransmits, maxPacketLifeTime, negotiated, id}]
@@ -41,6 +43,7 @@ class World:
             "B": sim.Endpoint("B", "controlled", case["tagB"], case["tsnB"]),
         }
         self.net = {"A": [], "B": []}  # datagrams queued TOWARDS the endpoint
+        self.stash = {"A": [], "B": []}  # copies held back by the network for a long time
         self.trace = {"A": [], "B": []}  # per endpoint: (input, outputs)
         self.sent = {"A": {}, "B": {}}    # ep -> channel index -> list of messages accepted by send()
         self.salt = 0
@@ -84,6 +87,18 @@ class World:
             exc = ep.stop()
             self._after(name, ["stop"], exc)
             return True
+        if k == "stash":      # the network keeps a copy of a datagram for much later (duplicate + long delay)
+            q = self.net[name]
+            if not q:
+                return False
+            self.stash[name].append(q[op[2] % len(q)])
+            return True
+        if k == "unstash":
+            st = self.stash[name]
+            if not st:
+                return False
+            self.net[name].append(st.pop(op[2] % len(st)))
+            return True
         if k in ("deliver", "drop", "dup"):
             q = self.net[name]
             if not q:
@@ -98,6 +113,14 @@ class World:
             d = q.pop(i)
             if not ep.dtls.registered:
                 return True  # no data receiver: DTLS drops it
+            exc = ep.rx(d)
+            self._after(name, ["rx", d], exc)
+            return True
+        if k == "inject":
+            # a datagram made up by the network (hex), handed to the endpoint as it is
+            if not ep.dtls.registered:
+                return False
+            d = bytes.fromhex(op[2])
             exc = ep.rx(d)
             self._after(name, ["rx", d], exc)
             return True
@@ -213,10 +236,23 @@ def random_ops(rng, case, n_steps, profile):
     loss = profile.get("loss", 0.1)
     dup = profile.get("dup", 0.03)
     reorder = profile.get("reorder", 0.2)
+    hostile = profile.get("hostile", 0.0)
     for _ in range(n_steps):
         r = rng.random()
         name = rng.choice("AB")
         ep = w.ep[name]
+        if hostile and rng.random() < hostile:
+            from . import sctp_hostile
+            d, forging = sctp_hostile.make(rng, w, name)
+            tries = 0
+            while d is not None and forging and not profile.get("forging", True) and tries < 20:
+                d, forging = sctp_hostile.make(rng, w, name)
+                tries += 1
+            if d is not None and forging and not profile.get("forging", True):
+                d = None
+            if d is not None:
+                do(["inject", name, d.hex(), bool(forging)])
+            continue
         if r < 0.45:
             q = w.net[name]
             if not q:
@@ -225,6 +261,8 @@ def random_ops(rng, case, n_steps, profile):
             if q:
                 i = rng.randrange(len(q)) if rng.random() < reorder else 0
                 x = rng.random()
+                if rng.random() < profile.get("stash", 0.04):
+                    do(["stash", name, i])
                 if x < loss:
                     do(["drop", name, i])
                 elif x < loss + dup:
@@ -232,6 +270,9 @@ def random_ops(rng, case, n_steps, profile):
                 else:
                     do(["deliver", name, i])
                 continue
+        if r < 0.47 and w.stash[name]:
+            do(["unstash", name, rng.randrange(len(w.stash[name]))])
+            continue
         if r < 0.70:
             if ep.tasks:
                 do(["task", name])
